@@ -29,14 +29,35 @@ class _Subst(ast.NodeTransformer):
         return node
 
 
+class Env(dict):
+    """environment of seq_env; `branch_dependent` = names whose value at the end depends on which branch ran (assigned under an
+    if / loop / try and also elsewhere, or only under one).  Straight-line substitution of such a name would silently pick the
+    textually last assignment, so `subst` refuses (AnalysisError) - the caller's rule is then not decided instead of wrong."""
+    branch_dependent = frozenset()
+
+
 def subst(expr, env):
+    bd = getattr(env, "branch_dependent", None)
+    if bd:
+        used = {n.id for n in ast.walk(expr) if isinstance(n, ast.Name) and isinstance(n.ctx, ast.Load)} & set(bd)
+        if used:
+            from .core import AnalysisError
+            raise AnalysisError("the value of `%s` depends on which branch ran; straight-line symbolic evaluation does not decide `%s`" % (
+                sorted(used)[0], norm(ast.unparse(expr))[:60]))
     return _Subst(env).visit(copy.deepcopy(expr))
 
 
-def seq_env(stmts, env=None, stop=None, conditional=None, _depth=0):
+def seq_env(stmts, env=None, stop=None, conditional=None, _depth=0, track=True):
     """Process `stmts` in order; returns env {name: expression over leaves}.  `stop`: an ast node at which evaluation ends
-    (raises StopIteration internally).  `conditional`: optional set collecting names assigned under a branch or loop."""
-    env = {} if env is None else env
+    (raises StopIteration internally).  `conditional`: optional set collecting names assigned under a branch or loop.
+    The returned Env records the names whose value depends on which branch ran; `subst` refuses to substitute them.  A caller
+    that compares the *same* expression under two modes and treats the dependence on branches by other means passes
+    track=False (then the textually last assignment stands for the name, as the comparison only needs the same text twice)."""
+    if env is None:
+        env = Env()
+    elif not isinstance(env, Env):
+        env = Env(env)          # callers must use the returned environment
+    bd = set(env.branch_dependent)
 
     class Done(Exception):
         pass
@@ -46,14 +67,22 @@ def seq_env(stmts, env=None, stop=None, conditional=None, _depth=0):
             if st is stop:
                 raise Done()
             if isinstance(st, ast.Assign) and len(st.targets) == 1 and isinstance(st.targets[0], ast.Name):
-                env[st.targets[0].id] = subst(st.value, env)
-                if cond and conditional is not None:
-                    conditional.add(st.targets[0].id)
+                dep = bool({n.id for n in ast.walk(st.value) if isinstance(n, ast.Name)} & bd)
+                env[st.targets[0].id] = _Subst(env).visit(copy.deepcopy(st.value))
+                if cond or dep:
+                    bd.add(st.targets[0].id)
+                    if conditional is not None:
+                        conditional.add(st.targets[0].id)
+                else:
+                    bd.discard(st.targets[0].id)      # an unconditional assignment fixes the value again
             elif isinstance(st, ast.AugAssign) and isinstance(st.target, ast.Name):
                 old = env.get(st.target.id, ast.Name(st.target.id, ast.Load()))
-                env[st.target.id] = ast.BinOp(copy.deepcopy(old), st.op, subst(st.value, env))
-                if cond and conditional is not None:
-                    conditional.add(st.target.id)
+                dep = bool(({n.id for n in ast.walk(st.value) if isinstance(n, ast.Name)} | {st.target.id}) & bd)
+                env[st.target.id] = ast.BinOp(copy.deepcopy(old), st.op, _Subst(env).visit(copy.deepcopy(st.value)))
+                if cond or dep:
+                    bd.add(st.target.id)
+                    if conditional is not None:
+                        conditional.add(st.target.id)
             elif isinstance(st, (ast.FunctionDef, ast.ClassDef)):
                 continue
             else:
@@ -63,10 +92,14 @@ def seq_env(stmts, env=None, stop=None, conditional=None, _depth=0):
                     for t in ast.walk(st.target):
                         if isinstance(t, ast.Name):
                             env.pop(t.id, None)
+                # the body of a try whose every handler leaves (continue / break / return / raise) runs to its end whenever the
+                # code after it is reached: its assignments are not branch-dependent there
+                leaves = isinstance(st, ast.Try) and st.handlers and all(
+                    h.body and isinstance(h.body[-1], (ast.Continue, ast.Break, ast.Return, ast.Raise)) for h in st.handlers)
                 for fld in ("body", "orelse", "finalbody"):
                     sub = getattr(st, fld, None)
                     if sub:
-                        run(sub, cond or isinstance(st, (ast.If, ast.For, ast.While, ast.Try)))
+                        run(sub, cond or (isinstance(st, (ast.If, ast.For, ast.While, ast.Try)) and not (leaves and fld == "body")))
                 for h in getattr(st, "handlers", []) or []:
                     run(h.body, True)
 
@@ -74,6 +107,7 @@ def seq_env(stmts, env=None, stop=None, conditional=None, _depth=0):
         run(stmts, False)
     except Done:
         pass
+    env.branch_dependent = frozenset(bd) if track else frozenset()
     return env
 
 
